@@ -46,6 +46,11 @@ type scenario struct {
 	// Via: how a record is issued: 0 LogAttrs, 1 through the std log bridge NewLogLogger(logger, severity).Print,
 	// 2 through the exported WriteInternal the bridge uses. The statement speaks of the record, not of its entry point
 	Via int
+	// Between the faulty phase and the suffix: Withdraw (1 normal, 2 error, 3 per-level list): the first destination of that
+	// list is withdrawn with the matching Remove... call - it was written to before, it must get nothing afterwards and the
+	// remaining ones everything; NewLevel > 0: the logger's level is changed to NewLevel-1 (the suffix runs under the new one)
+	Withdraw int
+	NewLevel int
 }
 
 func failure(kind int) error {
@@ -98,6 +103,14 @@ func count(l []int, w int) (n int) {
 
 func run(t vlib.TB, test string, sc scenario) {
 	defer vlib.Canon()()
+	{
+		// the configuration changes between the phases (Withdraw, NewLevel): work on a private copy
+		c := config{Normal: append([]int(nil), sc.Cfg.Normal...), Error: append([]int(nil), sc.Cfg.Error...), Leveled: map[int][]int{}, L: sc.Cfg.L, Format: sc.Cfg.Format}
+		for k, v := range sc.Cfg.Leveled {
+			c.Leveled[k] = append([]int(nil), v...)
+		}
+		sc.Cfg = c
+	}
 	log := vlib.NewEventLog()
 	nw := 0
 	for _, l := range [][]int{sc.Cfg.Normal, sc.Cfg.Error} {
@@ -163,6 +176,7 @@ func run(t vlib.TB, test string, sc scenario) {
 	}
 	lg.SetLevel(sc.Cfg.L)
 	debug := sc.Cfg.L == slog.DebugLevel
+	between := ""
 
 	global, inCall, faultsOn, tripped := 0, 0, true, false
 	log.Fault = func(w, _ int, p []byte) (int, error) {
@@ -187,8 +201,8 @@ func run(t vlib.TB, test string, sc scenario) {
 	}
 
 	desc := func() string {
-		return fmt.Sprintf("config{normal=%v error=%v leveled=%v level=%v format=%s depth-below-a-root-with-own-writers=%d wrapped-by-NewLogWriter=%v issued-via=%d} calls=%v bits=%v perm=%v failing-writes-return=%q suffix=%v",
-			sc.Cfg.Normal, sc.Cfg.Error, sc.Cfg.Leveled, sc.Cfg.L, sc.Cfg.Format, sc.Depth, sc.Wrapped, sc.Via, sc.Calls, sc.Bits, sc.Perm, failure(sc.ErrKind), sc.Suffix)
+		return fmt.Sprintf("config{normal=%v error=%v leveled=%v level=%v format=%s depth-below-a-root-with-own-writers=%d wrapped-by-NewLogWriter=%v issued-via=%d} calls=%v bits=%v perm=%v failing-writes-return=%q between-the-phases=[%s] suffix=%v",
+			sc.Cfg.Normal, sc.Cfg.Error, sc.Cfg.Leveled, sc.Cfg.L, sc.Cfg.Format, sc.Depth, sc.Wrapped, sc.Via, sc.Calls, sc.Bits, sc.Perm, failure(sc.ErrKind), between, sc.Suffix)
 	}
 
 	labels := map[string]bool{}
@@ -310,6 +324,37 @@ func run(t vlib.TB, test string, sc scenario) {
 		doCall(i, r, "faulty")
 	}
 	faultsOn = false
+	switch sc.Withdraw {
+	case 1:
+		if len(sc.Cfg.Normal) > 1 {
+			w := sc.Cfg.Normal[0]
+			lg.RemoveWriter(pool[w])
+			sc.Cfg.Normal = sc.Cfg.Normal[1:]
+			between += fmt.Sprintf(" RemoveWriter(w%d)", w)
+		}
+	case 2:
+		if len(sc.Cfg.Error) > 1 {
+			w := sc.Cfg.Error[0]
+			lg.RemoveErrorWriter(pool[w])
+			sc.Cfg.Error = sc.Cfg.Error[1:]
+			between += fmt.Sprintf(" RemoveErrorWriter(w%d)", w)
+		}
+	case 3:
+		for _, lvl := range []int{int(slog.WarnLevel), int(slog.InfoLevel), int(slog.ErrorLevel), int(slog.AlwaysLevel), int(slog.DebugLevel)} {
+			if l := sc.Cfg.Leveled[lvl]; len(l) > 0 {
+				lg.RemoveLevelWriter(slog.Level(lvl), pool[l[0]])
+				between += fmt.Sprintf(" RemoveLevelWriter(%d, w%d)", lvl, l[0])
+				sc.Cfg.Leveled[lvl] = l[1:] // an emptied per-level list no longer takes precedence
+				break
+			}
+		}
+	}
+	if sc.NewLevel > 0 {
+		sc.Cfg.L = slog.Level(sc.NewLevel - 1)
+		lg.SetLevel(sc.Cfg.L)
+		debug = debug || sc.Cfg.L == slog.DebugLevel
+		between += fmt.Sprintf(" SetLevel(%v)", sc.Cfg.L)
+	}
 	for i, r := range sc.Suffix {
 		doCall(i, r, "suffix")
 	}
@@ -411,6 +456,8 @@ func genScenario(t *rapid.T) scenario {
 	sc.Depth = rapid.SampledFrom([]int{0, 0, 1, 2}).Draw(t, "depth")
 	sc.Wrapped = rapid.IntRange(0, 3).Draw(t, "wrappedByNewLogWriter") == 0
 	sc.Via = rapid.SampledFrom([]int{0, 0, 0, 1, 2}).Draw(t, "issuedVia")
+	sc.Withdraw = rapid.SampledFrom([]int{0, 0, 0, 1, 2, 3}).Draw(t, "withdrawBetweenThePhases")
+	sc.NewLevel = rapid.SampledFrom([]int{0, 0, 0, 1 + int(slog.WarnLevel), 1 + int(slog.InfoLevel), 1 + int(slog.ErrorLevel), 1 + int(slog.TraceLevel), 1 + int(slog.AlwaysLevel)}).Draw(t, "levelBetweenThePhases")
 	return sc
 }
 
